@@ -8,6 +8,8 @@ import (
 	"fmt"
 	"strings"
 	"sync"
+
+	"gorm.io/gorm"
 )
 
 // fakeSQL is an in-process database/sql driver. It sits underneath database/sql and
@@ -284,3 +286,104 @@ func (s *server) planRollbackFail() bool {
 	defer s.mu.Unlock()
 	return s.pl.rollbackFail
 }
+
+// ---------------------------------------------------------------- gorm-level pool
+//
+// gpool is a gorm.ConnPool that talks to the fake server directly, without database/sql in
+// between: every Commit / Rollback call gorm makes reaches the server log (database/sql answers
+// a second finish attempt with ErrTxDone itself and hides it from the driver).
+
+type gpool struct{ srv *server }
+
+type gtx struct {
+	srv  *server
+	id   int
+	done bool
+}
+
+func leafOfArgs(q string, args []interface{}) int {
+	if strings.Contains(q, "c18_t") && len(args) >= 1 {
+		switch v := args[0].(type) {
+		case int:
+			return v
+		case int64:
+			return int(v)
+		}
+	}
+	return -1
+}
+
+func (s *server) execDirect(tx int, q string, args []interface{}) (sql.Result, error) {
+	leaf := leafOfArgs(q, args)
+	fail := strings.Contains(q, failMarker)
+	s.mu.Lock()
+	if leaf < 0 {
+		s.foreign++
+	}
+	s.events = append(s.events, event{typ: evExec, tx: tx, ok: !fail, leaf: leaf})
+	s.mu.Unlock()
+	if fail {
+		return nil, errExec
+	}
+	return driver.RowsAffected(1), nil
+}
+
+var errNoQueries = errors.New("c18-fakesql: queries and prepared statements are not supported by the gorm-level pool")
+
+func (p *gpool) PrepareContext(context.Context, string) (*sql.Stmt, error) { return nil, errNoQueries }
+func (p *gpool) ExecContext(_ context.Context, q string, args ...interface{}) (sql.Result, error) {
+	return p.srv.execDirect(0, q, args)
+}
+func (p *gpool) QueryContext(context.Context, string, ...interface{}) (*sql.Rows, error) {
+	return nil, errNoQueries
+}
+func (p *gpool) QueryRowContext(context.Context, string, ...interface{}) *sql.Row { return nil }
+
+// BeginTx makes gpool a gorm.ConnPoolBeginner.
+func (p *gpool) BeginTx(_ context.Context, _ *sql.TxOptions) (gorm.ConnPool, error) {
+	s := p.srv
+	s.mu.Lock()
+	defer s.mu.Unlock()
+	if s.pl.beginFail {
+		s.events = append(s.events, event{typ: evBegin, ok: false})
+		return nil, errBegin
+	}
+	s.nextTx++
+	s.openTx++
+	s.events = append(s.events, event{typ: evBegin, tx: s.nextTx, ok: true})
+	return &gtx{srv: s, id: s.nextTx}, nil
+}
+
+func (t *gtx) PrepareContext(context.Context, string) (*sql.Stmt, error) { return nil, errNoQueries }
+func (t *gtx) ExecContext(_ context.Context, q string, args ...interface{}) (sql.Result, error) {
+	return t.srv.execDirect(t.id, q, args)
+}
+func (t *gtx) QueryContext(context.Context, string, ...interface{}) (*sql.Rows, error) {
+	return nil, errNoQueries
+}
+func (t *gtx) QueryRowContext(context.Context, string, ...interface{}) *sql.Row { return nil }
+
+func (t *gtx) finish(typ evType, fail bool, ferr error) error {
+	s := t.srv
+	s.mu.Lock()
+	defer s.mu.Unlock()
+	s.events = append(s.events, event{typ: typ, tx: t.id, ok: !fail})
+	if !t.done {
+		t.done = true
+		s.openTx--
+	}
+	if fail {
+		return ferr
+	}
+	return nil
+}
+
+// Commit / Rollback make gtx a gorm.TxCommitter.
+func (t *gtx) Commit() error   { return t.finish(evCommit, t.srv.planCommitFail(), errCommit) }
+func (t *gtx) Rollback() error { return t.finish(evRollback, t.srv.planRollbackFail(), errRollback) }
+
+var (
+	_ gorm.ConnPool         = (*gpool)(nil)
+	_ gorm.ConnPoolBeginner = (*gpool)(nil)
+	_ gorm.TxCommitter      = (*gtx)(nil)
+)
